@@ -1,6 +1,6 @@
 /-
 The assumption `Iota.Tie.SecpCode.Externs` about the parameter `big_ModInverse` of the code translated from
-btccurve/secp256k1.go, derived from the DOCUMENTED behaviour of `(*big.Int).ModInverse` (`ExternsSpec`): for a modulus
+btccurve/secp256k1.go, derived from the behaviour of `(*big.Int).ModInverse` as implemented (`ExternsSpec`; the Go documentation promises the inverse, the range `[0, n)` is what the implementation returns): for a modulus
 `n > 0` a non-nil result is the inverse of `g` in `[0, n)`, and the result is nil only when `g` and `n` are not coprime.
 Every function with that behaviour agrees with the model's `modInverse` on the modulus `P` (`ExternsSpec.toExterns`), and
 `modInverse` has it for every modulus below 2^511 (`Proofs/Secp/ModInv.lean`), so the specification is satisfiable too.
@@ -12,7 +12,7 @@ import Iota.Proofs.Secp.ModInv
 namespace Iota.Tie.SecpCode
 open Iota Iota.Secp256k1
 
-/-- the documented behaviour of `new(big.Int).ModInverse(g, n)` for `0 < n < 2^511`; `none` = a nil result -/
+/-- the behaviour of `new(big.Int).ModInverse(g, n)` for `0 < n < 2^511` (inverse: documented; its range `[0, n)`: as implemented); `none` = a nil result -/
 structure ExternsSpec (inv : Int → Int → Option Int) : Prop where
   sound : ∀ g n zi : Int, 0 < n → n < 2 ^ 511 → inv g n = some zi → 0 ≤ zi ∧ zi < n ∧ (zi * g) % n = 1 % n
   nil_only : ∀ g n : Int, 0 < n → n < 2 ^ 511 → inv g n = none → Int.gcd g n ≠ 1
